@@ -12,7 +12,7 @@ LEVEL = 'fault_enumeration'
 SHARDS = {'quick': 4, 'thorough': 16}
 RULE = ('Hypothesis draws a bootloader geometry (page size from {16,25,32,50,64,256,1024}, buffer pages 1..12, flash pages, start page), '
         'target (stm32/nrf51), optional override page, image length (1 .. >2 buffer-fulls, biased to exact multiples of 25, the page size '
-        'and the buffer size and +-1 around them) and a fault plan: for every flash-write attempt one of {ok, lost, wrong-reply, negative, '
+        'and the buffer size and +-1 around them) and a fault plan: for every flash-write attempt one of {ok, lost, wrong-reply, negative (with and without an error code), '
         'late (reply delivered after the timeout, i.e. at the next receive)}. Sub "faults-exhaustive" enumerates ALL fault plans of length '
         '<= 4 (thorough: <= 6) over the first flash-writes of fixed images. The real Bootloader/Cloader run over a scripted link to a '
         'target model (page buffers, flash pages, range checks). Non-trivial = image length not a multiple of the page size with >= 2 '
@@ -92,8 +92,9 @@ class _Link:
             self.flash_cmds.append((target_page, count, action))
             if action == 'lost-command':
                 return
-            if action == 'negative':
-                self._reply(bytes([target, 0x18, 0, 7]))
+            if action in ('negative', 'negative-noerr'):
+                # refused: status 0; the error byte says why, a bootloader may leave it at 0
+                self._reply(bytes([target, 0x18, 0, 7 if action == 'negative' else 0]))
                 return
             # executed by the target
             if page_buffer != 0 or count > g['buffer_pages']:
@@ -216,7 +217,7 @@ def run_flash(case):
                 late = False
             if a_ == 'ok':
                 q.append('pos')
-            elif a_ == 'negative':
+            elif a_ in ('negative', 'negative-noerr'):
                 q.append('neg')
             elif a_ == 'wrong':
                 q.append('other')
@@ -274,7 +275,7 @@ def run_flash(case):
     return out
 
 
-_ACTIONS = ['ok', 'lost', 'lost-command', 'wrong', 'negative', 'late']
+_ACTIONS = ['ok', 'lost', 'lost-command', 'wrong', 'negative', 'negative-noerr', 'late']
 
 
 @st.composite
@@ -538,7 +539,7 @@ def release_case(draw):
 def fault_cases(tier):
     import itertools
     depth = 4 if tier == 'quick' else 6
-    acts = ['ok', 'lost', 'wrong', 'negative', 'late'] if tier == 'quick' else _ACTIONS
+    acts = ['ok', 'lost', 'wrong', 'negative', 'negative-noerr', 'late'] if tier == 'quick' else _ACTIONS
     for (ps, bp, n) in ((16, 2, 70), (25, 1, 50)):
         geo = {'page_size': ps, 'buffer_pages': bp, 'flash_pages': 40, 'start_page': 3}
         for k in range(1, depth + 1):
